@@ -328,7 +328,8 @@ func (s *Store[K, V]) GetWithSecodary(key K) (V, bool, error) {
 		if !ok {
 			return v, &NotFound{}
 		}
-		if expire <= s.timerwheel.clock.NowNano() {
+		// expire 0 means no ttl
+		if expire != 0 && expire <= s.timerwheel.clock.NowNano() {
 			err = s.secondaryCache.Delete(key)
 			if err == nil {
 				err = &NotFound{}
@@ -1362,7 +1363,8 @@ func (s *LoadingStore[K, V]) Get(ctx context.Context, key K) (V, error) {
 				if err != nil && !errors.As(err, &notFound) {
 					return Loaded[V]{}, err
 				}
-				if ok {
+				// an expired entry in secondary cache is same as not found
+				if ok && (expire == 0 || expire > s.timerwheel.clock.NowNano()) {
 					result = s.setShardWithoutLock(shard, h, key, vs, cost, expire, true)
 					entryCost = cost
 					entryExpire = expire
